@@ -140,6 +140,18 @@ impl JobSpec {
         }
         2_000_000 + 2_000 * n
     }
+    /// Budget of macro-expansion passes (tick site `cpp.replace_all`): a terminating run needs at most
+    /// (macro nesting depth + 1) passes per logical line, so 20 000 + 50 per line is generous; it
+    /// catches expansions that never reach a fixed point while their text is still small.
+    pub fn replace_cap(&self) -> u64 {
+        let mut lines = self.source.0.iter().filter(|b| **b == b'\n').count() as u64 + 1;
+        for f in &self.includes {
+            if let IncKind::File(b) = &f.kind {
+                lines += b.0.iter().filter(|b| **b == b'\n').count() as u64 + 1;
+            }
+        }
+        20_000 + 50 * lines
+    }
     pub fn canonical_delivery(&self) -> bool {
         self.reader.is_canonical() && self.writer.is_canonical()
     }
